@@ -16,6 +16,11 @@ OVERRIDE = {
     'C13-B': 'not-reachable-on-a-running-chain: closeSurplusAuction is only called from the generation-1 auction begin blocker, whose body is commented out in x/auction/module.go (generation-1 surplus auctions are never even started on a live chain). The demo calls the keeper-level BeginBlocker directly.',
 }
 
+# missed for a stated reason other than reachability (verdict stays "missed")
+MISSED_WHY = {
+    'C18-G': 'not decided by the statement as written: it needs a history of saving-rate changes (rate -> 0 -> rate), which the statement does not quantify over, and the sharper bound that would see it ("nothing accrues at the present rate for time before the last rate change") does not hold on the unchanged tree either: when the collector cannot pay a locker\'s settlement at a rate change, LockerIterateRewards leaves the locker\'s stamp untouched and the next calculation pays the new rate from the old stamp (tried, fired on the unchanged tree at seed 0, withdrawn).',
+}
+
 def needs(notes):
     out, on = [], False
     for line in notes.splitlines():
@@ -64,6 +69,8 @@ def main():
         }
         if key in OVERRIDE:
             meta['why_not_caught'] = OVERRIDE[key]
+        if key in MISSED_WHY and verdict == 'missed':
+            meta['why_not_caught'] = MISSED_WHY[key]
         json.dump(meta, open(d + '/meta.json', 'w'), indent=1)
         rows.append((key, title, verdict, ' '.join(sorted(set(l for c in caught for l in c['labels'].split())))[:400]))
     with open(DST + '/INDEX.md', 'w') as f:
